@@ -12,8 +12,8 @@ LEAN = ['ICal.Props.C13']
 LEVEL = 'proof'
 FINGERPRINTS = ['cal.Timezone.from_tzinfo', 'cal.Timezone.from_tzid', 'cal.Timezone._from_tzinfo_skip_search',
                 'cal.Timezone.get_transitions', 'cal.Timezone.to_tz']
-RULE = ('zones = the recorded finding zones + a seeded sample (quick: 40) or all ids (thorough) of the provider, both '
-        'providers; windows = the default 1970-2038 and seeded sub-windows; the zone table is read from the tz data '
+RULE = ('zones = the recorded finding zones + a seeded sample or all ids (thorough) of the provider, both '
+        'providers (quick: 60 seeded ids); windows = the default 1970-2038 and seeded sub-windows; the zone table is read from the tz data '
         '(pytz tables / CPython\'s pure-Python TZif reader), sent to the model, and the model\'s observances are compared '
         'with Timezone.from_tzid; oracle instants = every transition -1s/0/+1s, interval midpoints and a 6-hour grid '
         '(quick: 30-day grid plus one dense 6-hour stretch). A case is non-trivial when the zone has a transition in the window')
@@ -171,11 +171,12 @@ def src_at(tz, t):
 
 def job(args):
     """runs in a worker process; returns plain data"""
-    tzid, prov, first_date, last_date, dense, regen = args
+    tzid, prov, first_date, last_date, dense, regen, seed = args
     import random
+    import zlib
     from icalendar import Timezone
     from icalendar.timezone import tzp
-    rng = random.Random(hash((tzid, prov, str(first_date))) & 0xffffffff)
+    rng = random.Random(zlib.crc32(repr((tzid, prov, str(first_date), str(last_date), seed)).encode()))
     res = {'corr': [], 'viol': [], 'evals': 0, 'counts': {}, 'chain': None, 'key': (tzid, prov, str(first_date), str(last_date))}
 
     def count(k, n=1):
@@ -381,15 +382,15 @@ def jobs(ctx):
             chosen = ids
         else:
             pool = [z for z in ids if z not in FINDING_ZONES]
-            chosen = [z for z in FINDING_ZONES if z in ids] + ctx.rng.sample(pool, 40)
+            chosen = [z for z in FINDING_ZONES if z in ids] + ctx.rng.sample(pool, 60)
         for n, z in enumerate(chosen):
-            out.append((z, prov, D(1970, 1, 1), D(2038, 1, 1), thorough, (n % 4 == 0) or z in FINDING_ZONES[:4]))
+            out.append((z, prov, D(1970, 1, 1), D(2038, 1, 1), thorough, (n % 4 == 0) or z in FINDING_ZONES[:4], ctx.seed))
             y0 = ctx.rng.randint(1971, 2020)
             w = (D(y0, ctx.rng.randint(1, 12), ctx.rng.randint(1, 28)), D(ctx.rng.randint(y0 + 1, 2037), ctx.rng.randint(1, 12), ctx.rng.randint(1, 28)))
-            if thorough or n % 3 == 0:
-                out.append((z, prov, w[0], w[1], thorough, False))
+            if thorough or n % 2 == 0:
+                out.append((z, prov, w[0], w[1], thorough, False, ctx.seed))
             if thorough:
-                out.append((z, prov, D(2000, 1, 1), D(2030, 1, 1), False, n % 8 == 0))
+                out.append((z, prov, D(2000, 1, 1), D(2030, 1, 1), False, n % 8 == 0, ctx.seed))
     return out
 
 
@@ -458,7 +459,7 @@ def oracle(ctx):
 def replay(ctx, data):
     inp = data['input']
     D = dt.date.fromisoformat
-    r = job((inp['zone'], inp['provider'], D(inp['first_date']), D(inp['last_date']), True, True))
+    r = job((inp['zone'], inp['provider'], D(inp['first_date']), D(inp['last_date']), True, True, data.get('seed', 0)))
     for kind, i, detail, cls in r['viol']:
         print('REPRODUCED', kind, cls, detail)
     if not r['viol']:
